@@ -140,6 +140,24 @@ impl SessionAttributes {
     }
 }
 
+// Verification hooks (off unless built with --cfg nlnetlabs_routecore_verif).
+#[cfg(nlnetlabs_routecore_verif)]
+impl SessionAttributes {
+    pub const fn verif_connect_retry_counter(&self) -> usize {
+        self.connect_retry_counter
+    }
+    pub fn verif_set_flags(
+        &mut self,
+        delay_open: bool,
+        passive_tcp_establishment: bool,
+        send_notification_without_open: bool,
+    ) {
+        self.delay_open = delay_open;
+        self.passive_tcp_establishment = passive_tcp_establishment;
+        self.send_notification_without_open = send_notification_without_open;
+    }
+}
+
 impl Default for SessionAttributes {
     fn default() -> Self {
         Self {
